@@ -351,6 +351,8 @@ struct World<'a> {
     /// provenance: won indexes of genuinely valid-looking signatures sent per (entity, registration set)
     sent: HashMap<(Ent, Vec<u64>), BTreeMap<u64, BTreeSet<u64>>>,
     crashes_reached: Vec<Cut>,
+    /// provenance: entities whose open message passed its expiry while it was not certified
+    expired: BTreeSet<Ent>,
 }
 
 fn base_config(dir: &PathBuf, params: &ProtocolParameters) -> ServeCommandConfiguration {
@@ -385,7 +387,7 @@ impl<'a> World<'a> {
         let genesis_fixture = fx.sub(&all);
         tester.init_state_from_fixture(genesis_fixture).await.unwrap();
         tester.register_genesis_certificate(genesis_fixture).await.unwrap();
-        World { tester, cfg, db, fx, n, sent: HashMap::new(), crashes_reached: vec![] }
+        World { tester, cfg, db, fx, n, sent: HashMap::new(), crashes_reached: vec![], expired: BTreeSet::new() }
     }
 
     async fn wait_artifacts(&self) {
@@ -484,6 +486,9 @@ impl<'a> World<'a> {
                 let repo = self.tester.open_message_repository.clone();
                 if let Ok(Some(mut om)) = repo.get_open_message(&x.real()).await {
                     om.expires_at = Some(Utc::now() - chrono::Duration::seconds(30));
+                    if !om.is_certified {
+                        self.expired.insert(*x);
+                    }
                     repo.update_open_message(&om).await.unwrap();
                 }
             }
@@ -681,6 +686,19 @@ async fn judge_store(w: &World<'_>, snap: &Snap, k: u64, mode: Mode) -> Result<(
         match j {
             Some(j) if snap.certs[*j].ent == Some(*e) => {}
             other => return Err(format!("artifact of {:?} references certificate row {:?} which does not certify it", e, other)),
+        }
+    }
+    // (7) nothing is sealed for a message that passed its expiry uncertified; a certified flag has its certificate
+    for (i, c) in snap.certs.iter().enumerate() {
+        if let Some(x) = c.ent {
+            if w.expired.contains(&x) {
+                return Err(format!("certificate row {} was sealed for {:?} whose open message had expired", i, x));
+            }
+        }
+    }
+    for o in &snap.oms {
+        if o.certified && !snap.certs.iter().any(|c| c.ent == Some(o.ent)) {
+            return Err(format!("open message {:?} is marked certified but no certificate for it is stored", o.ent));
         }
     }
     let _ = mode;
